@@ -253,7 +253,19 @@ def scan_trusted(text):
         if not m:
             continue
         name = ""
-        for k in range(i, min(i + 6, len(lines))):
+        if m.group(1) == "assume_specification":
+            st = ln.find("[", m.end())
+            depth, k = 0, st
+            while st >= 0 and k < len(ln):
+                if ln[k] == "[":
+                    depth += 1
+                elif ln[k] == "]":
+                    depth -= 1
+                    if depth == 0:
+                        break
+                k += 1
+            name = ln[st + 1:k].replace(" ", "") if st >= 0 else ""
+        for k in range(i, min(i + 6, len(lines))) if not name else []:
             mm = re.search(r"\b(?:fn|struct|trait|type|enum)\s+(\w+)", lines[k])
             if mm:
                 name = mm.group(1)
